@@ -231,5 +231,30 @@ def finding_goaway_enhance_your_calm(line, go):
     return None
 
 
+def finding_c08_d1(line, go):
+    groups, _ = parse_server_result(go)
+    if any(it.startswith("G") and it.endswith(":1") for _, it in items(groups)):
+        return "PRIORITY on an even (idle, server-initiated) stream id answered with GOAWAY(PROTOCOL_ERROR); RFC 7540 6.3 allows PRIORITY in any state"
+    return None
+
+
+def finding_c08_d3(line, go):
+    groups, _ = parse_server_result(go)
+    last = groups[-2] if len(groups) >= 2 else []
+    if not any(it.startswith("R") or (it.startswith("G") and ":" in it) for it in last):
+        return "WINDOW_UPDATE after the peer's RST_STREAM is ignored; RFC 7540 5.1 asks for a stream error STREAM_CLOSED"
+    return None
+
+
+def finding_c08_d6(line, go):
+    groups, _ = parse_server_result(go)
+    if any(it.startswith("G") and it.endswith(":5") for _, it in items(groups)):
+        return "SETTINGS frame carrying the id of a closed stream answered with GOAWAY(STREAM_CLOSED); RFC 7540 6.5 says PROTOCOL_ERROR"
+    return None
+
+
 FINDING_ORACLES = dict(SERVER_ORACLES)
+FINDING_ORACLES["c08-d1"] = finding_c08_d1
+FINDING_ORACLES["c08-d3"] = finding_c08_d3
+FINDING_ORACLES["c08-d6"] = finding_c08_d6
 FINDING_ORACLES["goaway-enhance-your-calm"] = finding_goaway_enhance_your_calm
